@@ -97,11 +97,11 @@ def _deep_call(f, args):
         if addr is not None and (addr, n) in shared:
             new[i] = _c_void_p(shared[(addr, n)])
             continue
-        if n <= G.PAGE - cl and used_small < NSMALL:
+        if n < G.PAGE - cl and used_small < NSMALL:
             ar = _SMALL[_ring[0] % NSMALL]
             _ring[0] += 1
             used_small += 1
-        elif n <= BIGPAGES * G.PAGE - cl and used_big < NBIG:
+        elif n < BIGPAGES * G.PAGE - cl and used_big < NBIG:
             ar = _BIG[_ring[1] % NBIG]
             _ring[1] += 1
             used_big += 1
@@ -110,6 +110,9 @@ def _deep_call(f, args):
             continue
         if PLACE == "E":
             dst = ar.hi - n
+            can = dst - cl
+        elif PLACE == "O":
+            dst = ar.hi - n - 1
             can = dst - cl
         else:
             dst = ar.lo
